@@ -76,6 +76,7 @@ struct Builder {
     std::string fail_text;
     double heading = 0;
     int ncalls = 0;
+    int family = 0;
 
     Vec2 cur() { return fp.spine.point_array[fp.spine.point_array.count - 1]; }
     void update_heading() {
@@ -433,6 +434,8 @@ struct Centre {
     ld theta_max = 0;            // largest turn angle at a join
     ld slope_max = 0;            // largest |d hw| / length
     bool borderline = false;     // a bend-fits decision closer than 1e-7 to its threshold
+    bool runaway = false;        // an intersection of consecutive displaced lines far outside its segments
+    std::string why;
     std::vector<int> bent;       // per spine vertex: 1 bend, 0 corner
     V t_first, t_last;
 };
@@ -459,10 +462,17 @@ static Centre centre_line(const Array<Vec2>& sp, const Vec2* wo, BendType bend, 
             V dp = a[k] - b[k - 1];
             ld u0 = crossl(dp, t[k]) / den;
             c[k] = b[k - 1] + t[k - 1] * u0;
+            // for constant offsets |u0| = |off| tan(theta / 2); a taper slope close to the turn angle
+            // makes the two lines almost parallel and the intersection runs away along them
+            ld gap = lenl(dp);
+            if (fabsl(u0) > 4 * gap + 1e-9L && fabsl(u0) > 0.25L * std::min(lenl(b[k - 1] - a[k - 1]), lenl(b[k] - a[k]))) { C.runaway = true; C.why = "the intersection of two consecutive displaced centre lines lies far outside their segments (vertex " + std::to_string(k) + ")"; }
         } else {
             c[k] = (b[k - 1] + a[k]) * 0.5L;
         }
     }
+    // a centre vertex that lands behind the previous one (the centre line folds back on itself)
+    for (uint64_t k = 0; k + 1 < n; k++)
+        if (dotl(c[k + 1] - c[k], t[k]) <= 0 && !C.runaway) { C.runaway = true; C.why = "the centre line folds back on itself between vertices " + std::to_string(k) + " and " + std::to_string(k + 1); }
     C.t_first = t[0];
     C.t_last = t[n - 2];
     C.bent.assign(n, 0);
@@ -513,6 +523,28 @@ static Centre centre_line(const Array<Vec2>& sp, const Vec2* wo, BendType bend, 
     C.pts.push_back(c[n - 1]);
     C.hw.push_back(wo[n - 1].u);
     C.joined.push_back(false);
+    // inner corners of the two sides: the C++ takes the intersection of consecutive side lines without
+    // looking where it falls; when it falls outside the side segments the outline crosses itself
+    for (uint64_t k = 1; k + 1 < n; k++) {
+        if (C.bent[k]) continue;
+        for (int sd = -1; sd <= 1; sd += 2) {
+            V n0 = orthol(t[k - 1]) * (ld)sd, n1 = orthol(t[k]) * (ld)sd;
+            V q0 = c[k - 1] + n0 * (ld)wo[k - 1].u, r1 = c[k] + n0 * (ld)wo[k].u;
+            V r2 = c[k] + n1 * (ld)wo[k].u, q3 = c[k + 1] + n1 * (ld)wo[k + 1].u;
+            V d0 = r1 - q0, d1 = q3 - r2;
+            ld l0 = lenl(d0), l1 = lenl(d1);
+            if (l0 <= 0 || l1 <= 0) continue;
+            V u0v = d0 * (1 / l0), u1v = d1 * (1 / l1);
+            ld den = crossl(u0v, u1v);
+            if (fabsl(den) < 1e-8L) continue;
+            bool inner = sd > 0 ? den > 0 : den < 0;
+            if (!inner) continue;
+            V dp = r2 - r1;
+            ld s0 = crossl(dp, u1v) / den, s1 = crossl(dp, u0v) / den;
+            // intersection = r1 + s0 u0v = r2 + s1 u1v; inside the side segments when -l0 <= s0 <= 0 <= s1 <= l1
+            if ((s0 < -l0 || s0 > 1e-9L + 0.01L * l0 || s1 > l1 || s1 < -1e-9L - 0.01L * l1) && !C.runaway) { C.runaway = true; C.why = std::string("the inner-corner intersection of the ") + (sd > 0 ? "left" : "right") + " side lines at vertex " + std::to_string(k) + " lies outside the side segments (the outline crosses itself)"; }
+        }
+    }
     for (size_t i = 0; i + 1 < C.pts.size(); i++) {
         ld l = lenl(C.pts[i + 1] - C.pts[i]);
         if (l > 0) C.slope_max = std::max(C.slope_max, fabsl(C.hw[i + 1] - C.hw[i]) / l);
@@ -558,6 +590,19 @@ static void region_case(Builder& B, uint64_t e, const std::string& gid, Polygon*
     const ElemCfg& cfg = B.el[e];
     const Vec2* wo = fp.elements[e].half_width_and_offset.items;
     Centre C = centre_line(fp.spine.point_array, wo, cfg.bend, cfg.bend_radius, B.tol, false);
+    // NaN / infinite outline vertices
+    for (uint64_t i = 0; i < poly->point_array.count; i++) {
+        if (!std::isfinite(poly->point_array[i].x) || !std::isfinite(poly->point_array[i].y)) {
+            em.K("outline", gid + ":" + std::to_string(e));
+            em.I("nan");
+            // smooth joins run Curve::interpolation from one side point to the next; at a straight-through
+            // or gently turning vertex the two points (nearly) coincide and the spline is 0 / 0
+            em.P(cfg.join == JoinType::Smooth
+                     ? "FAIL FlexPath::to_polygons:smooth-join-nan the outline has NaN vertices: smooth join between (nearly) coincident side points at a straight-through or gently turning vertex"
+                     : "FAIL flexpath-outline-nan the outline has NaN or infinite vertices");
+            return;
+        }
+    }
     if (C.borderline) {
         em.T("region-skipped-borderline-bend");
         return;
@@ -588,6 +633,45 @@ static void region_case(Builder& B, uint64_t e, const std::string& gid, Polygon*
             reach = 1.05L / cosl(th / 2);
     }
     reach *= (1 + C.slope_max);
+    // spikes: every outline vertex must stay within a generous distance of the spine itself
+    // (offset and half width magnified by the sharpest mitre, plus the cap extension)
+    bool spiky = false;
+    {
+        std::vector<V> spv;
+        ld offmax = 0, hwmax = 0, thmax = 0;
+        for (uint64_t i = 0; i < fp.spine.point_array.count; i++) {
+            spv.push_back(V{fp.spine.point_array[i].x, fp.spine.point_array[i].y});
+            offmax = std::max(offmax, (ld)fabs(wo[i].v));
+            hwmax = std::max(hwmax, (ld)wo[i].u);
+        }
+        for (size_t i = 1; i + 1 < spv.size(); i++) {
+            V d0 = spv[i] - spv[i - 1], d1 = spv[i + 1] - spv[i];
+            thmax = std::max(thmax, atan2l(fabsl(crossl(d0, d1)), dotl(d0, d1)));
+        }
+        if (thmax > 2.0L) thmax = 2.0L;
+        ld extmax = cfg.end == EndType::Extended ? std::max((ld)cfg.ext.u, (ld)cfg.ext.v) : (cfg.end == EndType::Flush ? 0 : 1.5L * hwmax);
+        // a circular bend moves the centre line away from the corner of the spine by R (1 / cos(theta / 2) - 1)
+        ld bend_allow = cfg.bend == BendType::Circular ? ((ld)fabs(cfg.bend_radius) + offmax) * (1 / cosl(thmax / 2) - 1) : 0;
+        ld bound = 1.3L * (offmax + std::max(reach, 1.5L) * hwmax) / cosl(thmax / 2) + bend_allow + extmax + 2 * tol;
+        ld worst = 0;
+        for (uint64_t i = 0; i < poly->point_array.count; i++)
+            worst = std::max(worst, dist_point_poly(V{poly->point_array[i].x, poly->point_array[i].y}, spv));
+        if (worst > bound) {
+            spiky = true;
+            char buf[200];
+            snprintf(buf, sizeof buf, "an outline vertex lies %.4Lg from the spine (half width %.4Lg, offset %.4Lg, bound %.4Lg)", worst, hwmax, offmax, bound);
+            em.K("spike", gid + ":" + std::to_string(e));
+            em.I("spike");
+            em.P(std::string("FAIL FlexPath::to_polygons:corner-runaway ") + buf +
+                 ": the intersection of two almost parallel displaced lines (taper slope close to the turn angle) runs away along them");
+        }
+    }
+    if (C.runaway && !spiky) {
+        spiky = true;
+        em.K("spike", gid + ":" + std::to_string(e));
+        em.I("fold");
+        em.P("FAIL FlexPath::to_polygons:corner-runaway " + C.why + ": two almost parallel lines (taper slope close to the turn angle) are intersected");
+    }
     size_t m = C.pts.size();
     std::vector<ld> rc(m - 1), rf(m - 1);
     for (size_t i = 0; i + 1 < m; i++) {
@@ -620,16 +704,75 @@ static void region_case(Builder& B, uint64_t e, const std::string& gid, Polygon*
         cext.push_back(C.pts[m - 1] + C.t_last * ext1);
         rfe.push_back((cfg.end == EndType::Smooth ? 1.5L : 1.0L) * hw1 * (1 + C.slope_max) + tolf);
     }
-    // planes (only used with discs, i.e. round joins): behind the two end planes by tolc
+    // cover polyline: the centre line with its straight cap extensions (half-width / extended ends)
+    bool straight_cap = cfg.end == EndType::Flush || cfg.end == EndType::HalfWidth || cfg.end == EndType::Extended;
+    std::vector<V> ccov;
+    std::vector<ld> rcc;
+    if (straight_cap && ext0 > 0) {
+        ccov.push_back(C.pts[0] - C.t_first * ext0);
+        rcc.push_back(hw0 - tolc > 0 ? hw0 - tolc : 0);
+    }
+    for (size_t i = 0; i < m; i++) {
+        ccov.push_back(C.pts[i]);
+        if (i + 1 < m) rcc.push_back(rc[i]);
+    }
+    if (straight_cap && ext1 > 0) {
+        ccov.push_back(C.pts[m - 1] + C.t_last * ext1);
+        rcc.push_back(hw1 - tolc > 0 ? hw1 - tolc : 0);
+    }
+    const ld S20 = 1048576.0L;  // 2^20
+    auto plane_str = [&](V ep, V td, ld margin) {
+        int64_t mg = (int64_t)ceill(margin * (ld)GRID * S20);
+        return hex_i64(togridl(ep.x)) + " " + hex_i64(togridl(ep.y)) + " " + hex_i64((int64_t)llroundl(td.x * S20)) + " " +
+               hex_i64((int64_t)llroundl(td.y * S20)) + " " + hex_i64(mg);
+    };
+    V cap0 = C.pts[0] - C.t_first * (straight_cap ? ext0 : 0), cap1 = C.pts[m - 1] + C.t_last * (straight_cap ? ext1 : 0);
+    // planes for the discs of round joins: behind the cap planes (end planes for smooth ends) by tolc
     std::string planes;
-    if (round_join && plane_needed) {
-        const ld S = 1048576.0L;  // 2^20
-        V e0 = C.pts[0], t0 = C.t_first * (-1.0L), e1 = C.pts[m - 1], t1 = C.t_last;
-        int64_t mg = (int64_t)ceill(tolc * (ld)GRID * S);
-        planes = hex_i64(togridl(e0.x)) + " " + hex_i64(togridl(e0.y)) + " " + hex_i64((int64_t)llroundl(t0.x * S)) + " " +
-                 hex_i64((int64_t)llroundl(t0.y * S)) + " " + hex_i64(mg) + " " + hex_i64(togridl(e1.x)) + " " +
-                 hex_i64(togridl(e1.y)) + " " + hex_i64((int64_t)llroundl(t1.x * S)) + " " +
-                 hex_i64((int64_t)llroundl(t1.y * S)) + " " + hex_i64(mg);
+    if (round_join && plane_needed)
+        planes = plane_str(cap0, C.t_first * (-1.0L), tolc) + " " + plane_str(cap1, C.t_last, tolc);
+    // with bands the two ends are pulled in by the guard band (points on the cap planes are on the outline)
+    if (!round_join) {
+        size_t mc = ccov.size();
+        ld l0 = lenl(ccov[1] - ccov[0]), l1 = lenl(ccov[mc - 1] - ccov[mc - 2]);
+        if (l0 > 3 * tolc) ccov[0] = ccov[0] + unitl(ccov[1] - ccov[0]) * tolc;
+        if (l1 > 3 * tolc) ccov[mc - 1] = ccov[mc - 1] - unitl(ccov[mc - 1] - ccov[mc - 2]) * tolc;
+    }
+    // straight caps: nothing beyond the cap plane, except what is near the rest of the path
+    std::string capstr[2];
+    if (straight_cap) {
+        for (int side = 0; side < 2; side++) {
+            V ep = side ? cap1 : cap0;
+            V td = side ? C.t_last : C.t_first * (-1.0L);
+            ld clear = 2.5L * (side ? rfe.back() : rfe.front()) + (side ? ext1 : ext0);
+            std::vector<V> rest;
+            std::vector<ld> rrest;
+            // keep the longest run of segments with both ends farther than `clear` from the end point
+            V endp = side ? C.pts[m - 1] : C.pts[0];
+            std::vector<bool> keep(cext.size() - 1);
+            for (size_t i = 0; i + 1 < cext.size(); i++)
+                keep[i] = lenl(cext[i] - endp) > clear && lenl(cext[i + 1] - endp) > clear;
+            size_t best0 = 0, bestn = 0, cur0 = 0, curn = 0;
+            for (size_t i = 0; i < keep.size(); i++) {
+                if (keep[i]) {
+                    if (!curn) cur0 = i;
+                    curn++;
+                    if (curn > bestn) { bestn = curn; best0 = cur0; }
+                } else curn = 0;
+            }
+            bool all_other_dropped_are_near_end = true;
+            for (size_t i = 0; i < keep.size(); i++)
+                if (!keep[i] && !(i < best0 ? side == 0 : (i >= best0 + bestn ? side == 1 : false)) && bestn) all_other_dropped_are_near_end = false;
+            if (!all_other_dropped_are_near_end) continue;  // the path comes back near its own end: no cap claim
+            for (size_t i = best0; i < best0 + bestn; i++) {
+                rest.push_back(cext[i]);
+                rrest.push_back(rfe[i]);
+            }
+            if (bestn) rest.push_back(cext[best0 + bestn]);
+            std::string rr;
+            for (size_t i = 0; i < rrest.size(); i++) rr += (i ? " " : "") + hex_i64((int64_t)floorl(rrest[i] * (ld)GRID));
+            capstr[side] = plane_str(ep, td, tolf) + "|" + hexpts(rest) + "|" + rr;
+        }
     }
     // sample points
     std::vector<V> smp;
@@ -640,24 +783,25 @@ static void region_case(Builder& B, uint64_t e, const std::string& gid, Polygon*
         smp.push_back(p + nn * dist);
         smp.push_back(p - nn * dist);
     };
-    size_t stride = m > 12 ? m / 6 : 1;
-    for (size_t i = 0; i + 1 < m; i += stride) {
-        ld fs[3] = {0.12L, 0.5L, 0.88L};
+    size_t stride = m > 6 ? (m + 4) / 5 : 1;
+    for (size_t i = (m > 6 ? g.below(stride) : 0); i + 1 < m; i += stride) {
+        ld fs[2] = {0.5L, 0.05L + 0.9L * (ld)g.below(1001) / 1000.0L};
         for (ld f : fs) {
             ld hwl = C.hw[i] + (C.hw[i + 1] - C.hw[i]) * f;
-            lat(i, f, 0);
-            lat(i, f, 0.5L * hwl);
+            smp.push_back(C.pts[i] + (C.pts[i + 1] - C.pts[i]) * f);
+            lat(i, f, (0.2L + 0.6L * (ld)g.below(101) / 100.0L) * hwl);
             lat(i, f, 0.97L * rc[i]);
             lat(i, f, rf[i] * 1.03L);
             lat(i, f, rf[i] * 1.3L + (ld)g.below(100) / 100.0L * hwl);
         }
     }
     // around interior vertices, on both sides of the bisector
-    for (size_t i = 1; i + 1 < m; i += stride) {
+    size_t vstride = m > 6 ? (m + 2) / 4 : 1;
+    for (size_t i = 1; i + 1 < m; i += vstride) {
         V d0 = unitl(C.pts[i] - C.pts[i - 1]), d1 = unitl(C.pts[i + 1] - C.pts[i]);
         V bis = unitl(orthol(d0 + d1));
         ld hwl = C.hw[i];
-        ld ds[5] = {0.5L, 0.93L, 1.08L, 1.5L, 2.3L};
+        ld ds[4] = {0.6L, 0.93L, 1.08L * reach, 1.6L * reach};
         for (ld k : ds) {
             smp.push_back(C.pts[i] + bis * (k * hwl));
             smp.push_back(C.pts[i] - bis * (k * hwl));
@@ -669,8 +813,8 @@ static void region_case(Builder& B, uint64_t e, const std::string& gid, Polygon*
         V td = side ? C.t_last : C.t_first * (-1.0L);
         V nn = orthol(td);
         ld hwl = side ? hw1 : hw0, ex = side ? ext1 : ext0;
-        ld along[6] = {-0.5L * hwl, 0.3L * hwl, ex * 0.9L, ex + 0.5L * hwl, ex + 1.2L * hwl, ex + 2.5L * hwl};
-        ld lats[5] = {0, 0.85L, -0.85L, 1.25L, -1.25L};
+        ld along[5] = {-0.5L * hwl, ex * 0.5L + 0.05L * hwl, ex + 0.4L * hwl, ex + 1.15L * hwl, ex + 2.2L * hwl};
+        ld lats[3] = {0.1L, 0.85L, -1.2L};
         for (ld al : along)
             for (ld lt : lats) smp.push_back(ep + td * al + nn * (lt * hwl));
     }
@@ -681,7 +825,7 @@ static void region_case(Builder& B, uint64_t e, const std::string& gid, Polygon*
             x0 = std::min(x0, p.x); y0 = std::min(y0, p.y); x1 = std::max(x1, p.x); y1 = std::max(y1, p.y);
         }
         ld mg = 3 * std::max(hw0, hw1);
-        for (int i = 0; i < 12; i++)
+        for (int i = 0; i < 8; i++)
             smp.push_back(V{x0 - mg + (x1 - x0 + 2 * mg) * (ld)g.below(10001) / 10000.0L,
                             y0 - mg + (y1 - y0 + 2 * mg) * (ld)g.below(10001) / 10000.0L});
     }
@@ -697,9 +841,10 @@ static void region_case(Builder& B, uint64_t e, const std::string& gid, Polygon*
         return s;
     };
     std::string payload = gid + ":" + std::to_string(e) + ";band=" + (round_join ? "0" : "1") + ";O=" + hexpts(outline) +
-                          ";C=" + hexpts(C.pts) + ";E=" + hexpts(cext) + ";RC=" + radii(rc) + ";RF=" + radii(rfe) +
-                          ";PL=" + planes + ";S=" + hexpts(smp);
-    em.K("region", payload);
+                          ";C=" + hexpts(ccov) + ";E=" + hexpts(cext) + ";RC=" + radii(rcc) + ";RF=" + radii(rfe) +
+                          ";PL=" + planes + ";K0=" + capstr[0] + ";K1=" + capstr[1] + ";S=" + hexpts(smp);
+    if (spiky) em.T(std::string("spiky-in-family-") + (B.family == 0 ? "polyline" : (B.family == 1 ? "curved" : "mixed")));
+    em.K(spiky ? "region_spiky" : "region", payload);
     em.I("ok");
     em.T(std::string("region-join-") + join_name(cfg.join));
     em.T(std::string("region-end-") + end_type_name(cfg.end));
@@ -832,7 +977,7 @@ static void record_case(Builder& B, bool oas, const std::string& gid, const std:
 }
 
 // ------------------------------------------------------------------ one path
-static const int NDIRECTED = 4;
+static const int NDIRECTED = 5;
 
 static void run_path(uint64_t seed, uint64_t idx, const std::string& outdir, FILE* o) {
     Emit em{o};
@@ -863,7 +1008,12 @@ static void run_path(uint64_t seed, uint64_t idx, const std::string& outdir, FIL
         if (idx == 0) c.bend_radius = 1.0;        // hw at vertex 1 = 1.5 (no bend there), at vertex 2 = 1.0 ... see below
         else if (idx == 1) c.bend_radius = 1.2;
         else if (idx == 2) { c.wA = 1; c.wB = 4; c.bend_radius = 1.2; }
-        else c.bend_radius = 3;                   // control: fits everywhere in both functions
+        else if (idx == 3) c.bend_radius = 3;     // control: fits everywhere in both functions
+        else {                                    // smooth join at a straight-through vertex
+            c.wA = c.wB = 2;
+            c.join = JoinType::Smooth;
+            c.bend = BendType::None;
+        }
         B.el.push_back(c);
         family = 0;
     } else {
@@ -886,6 +1036,7 @@ static void run_path(uint64_t seed, uint64_t idx, const std::string& outdir, FIL
             B.el.push_back(c);
         }
     }
+    B.family = family;
     B.Wmax = 0;
     for (auto& c : B.el) {
         B.Wmax = std::max(B.Wmax, std::max(0.5 * c.wA, 0.5 * c.wB) + std::max(fabs(c.oA), fabs(c.oB)));
@@ -927,6 +1078,7 @@ static void run_path(uint64_t seed, uint64_t idx, const std::string& outdir, FIL
         // (0,0) -> (10,0) -> (10,10) -> (20,10) -> (20,20), width tapering over the whole path
         fp.spine.point_array[0] = Vec2{0, 0};
         std::vector<Vec2> pts = {Vec2{10, 0}, Vec2{10, 10}, Vec2{20, 10}, Vec2{20, 20}};
+        if (idx == 4) pts = {Vec2{10, 0}, Vec2{20, 0}, Vec2{20, 10}};
         Array<Vec2> arr = {};
         arr.items = pts.data();
         arr.count = pts.size();
@@ -951,6 +1103,23 @@ static void run_path(uint64_t seed, uint64_t idx, const std::string& outdir, FIL
             if (family == 0 || (family == 2 && g.coin())) call_polyline(B);
             else call_curved(B);
         }
+        // a point closer than the tolerance to its predecessor: remove_overlapping_points drops it (and
+        // its width / offset entries) at the start of to_polygons
+        if (g.chance(20)) {
+            Builder::Before b = B.before();
+            Builder::WO wo = B.pick_wo(false);
+            Vec2 d = step_vec(B.heading, 0.4 * B.tol);
+            fp.segment(d, NULL, NULL, true);
+            B.after(W_S, b, wo, true);
+            em.T("with-overlapping-point");
+            if (g.coin()) {
+                Builder::Before b2 = B.before();
+                Builder::WO wo2 = B.pick_wo(true);
+                Vec2 d2 = step_vec(B.heading, 5 * B.Wmax);
+                fp.segment(d2, wo2.ws ? wo2.w.data() : NULL, wo2.os ? wo2.o.data() : NULL, true);
+                B.after(W_S, b2, wo2, true);
+            }
+        }
         // calls that append nothing keep the invariant too
         if (g.chance(20)) {
             Builder::Before b = B.before();
@@ -961,6 +1130,9 @@ static void run_path(uint64_t seed, uint64_t idx, const std::string& outdir, FIL
         }
     }
 
+    bool spine_nan = false;
+    for (uint64_t i = 0; i < fp.spine.point_array.count; i++)
+        if (!std::isfinite(fp.spine.point_array[i].x) || !std::isfinite(fp.spine.point_array[i].y)) spine_nan = true;
     // counts case
     em.K("counts", gid + ";" + B.counts_payload);
     em.I(B.counts_impl);
@@ -970,6 +1142,13 @@ static void run_path(uint64_t seed, uint64_t idx, const std::string& outdir, FIL
     em.T(family == 0 ? "family-polyline" : (family == 1 ? "family-curved" : "family-mixed"));
     em.T("elements-" + std::to_string(B.n));
     if (B.counts_fail) return;  // the arrays are inconsistent: to_polygons would read out of bounds
+    if (spine_nan) {
+        // the curve sampler of C15 emitted a NaN vertex (cusp in a smooth continuation, DESIGN F11)
+        em.K("spine", gid);
+        em.I("nan");
+        em.P("FAIL Curve::sampler:cusp-nan the spine produced by the curve calls holds a NaN vertex (curve sampler at a cusp, C15 / F11); outline not checked");
+        return;
+    }
 
     // outlines (to_polygons removes overlapping points first: the spine arrays are read afterwards)
     Array<Polygon*> polys = {};
@@ -988,6 +1167,17 @@ static void run_path(uint64_t seed, uint64_t idx, const std::string& outdir, FIL
         em.I("error");
         em.P("FAIL flexpath-to_polygons-error to_polygons returned an error or the wrong number of polygons");
         return;
+    }
+    if (getenv("C07_DUMP")) {
+        fprintf(stderr, "path %s tol %g elements %d\n", gid.c_str(), B.tol, (int)B.n);
+        for (uint64_t i = 0; i < fp.spine.point_array.count; i++) {
+            fprintf(stderr, " %3d (%.6f, %.6f)", (int)i, fp.spine.point_array[i].x, fp.spine.point_array[i].y);
+            for (uint64_t e = 0; e < B.n; e++) fprintf(stderr, "  hw %.5f off %.5f", fp.elements[e].half_width_and_offset[i].u, fp.elements[e].half_width_and_offset[i].v);
+            fprintf(stderr, "\n");
+        }
+        for (uint64_t e = 0; e < B.n; e++)
+            fprintf(stderr, " element %d join %s end %s ext (%g,%g) bend %s radius %g\n", (int)e, join_type_name(B.el[e].join), end_type_name(B.el[e].end),
+                    B.el[e].ext.u, B.el[e].ext.v, bend_type_name(B.el[e].bend), B.el[e].bend_radius);
     }
     for (uint64_t e = 0; e < B.n; e++) {
         region_case(B, e, gid, polys[e], em);
